@@ -40,7 +40,9 @@ mutual
     | call {f args ce s cb k L} : cfg.callees.find? (·.id == f) = some ce →
         Blk G cb (callOps cfg f ce) (.next k) → ShapeRArgs G cfg args s cb L →
         ShapeR G cfg (.call f args) s k L
-    | wide {ns ds s k L} : ShapeR G cfg (.wideRatio ns ds) s k L
+    | wide {ns ds s dstart cb k L} : Blk G cb (wideInstrs Models.WideRatio.combine) (.next k) →
+        ShapeRWideTop G cfg ds dstart cb L → ShapeRWideTop G cfg ns s dstart L →
+        ShapeR G cfg (.wideRatio ns ds) s k L
     | store {v e s ob k L} : Blk G ob [.store v] (.next k) → ShapeR G cfg e s ob L →
         ShapeR G cfg (.store v e) s k L
     | index {v s k L} :
@@ -93,6 +95,19 @@ mutual
         ShapeR G cfg (.suffix str (.int st)) s k L
     | suffixGen {str a s ob k L} : Blk G ob suffixOps (.next k) → ShapeRArgs G cfg [str, a] s ob L →
         ShapeR G cfg (.suffix str a) s k L
+  /-- `multiplyFactors`: one factor: `int 0`, the factor; else the first two factors, `mulw`, then
+      every further factor followed by the eight ops of `mulStep` -/
+  inductive ShapeRWideTop (G : Graph) (cfg : RCfg) : List Expr → Nat → Nat → Option Loop → Prop
+    | one {e0 s b k L} : Blk G s [.pushInt 0] (.next b) → ShapeR G cfg e0 b k L →
+        ShapeRWideTop G cfg [e0] s k L
+    | many {e0 e1 rest s b1 mb r k L} : ShapeRWideRest G cfg rest r k L →
+        Blk G mb [.prim "mulw" []] (.next r) → ShapeR G cfg e1 b1 mb L → ShapeR G cfg e0 s b1 L →
+        ShapeRWideTop G cfg (e0 :: e1 :: rest) s k L
+  inductive ShapeRWideRest (G : Graph) (cfg : RCfg) : List Expr → Nat → Nat → Option Loop → Prop
+    | nil {k L} : ShapeRWideRest G cfg [] k k L
+    | cons {e rest s sb k' k L} : ShapeRWideRest G cfg rest k' k L →
+        Blk G sb (wideInstrs Models.WideRatio.mulStep) (.next k') → ShapeR G cfg e s sb L →
+        ShapeRWideRest G cfg (e :: rest) s k L
   /-- operands left to right; the entry of an empty operand list is the continuation itself -/
   inductive ShapeRArgs (G : Graph) (cfg : RCfg) : List Expr → Nat → Nat → Option Loop → Prop
     | nil {k L} : ShapeRArgs G cfg [] k k L
@@ -407,7 +422,7 @@ mutual
             cases opBlock_ok h1
             obtain ⟨dstart, g3, h2, h3⟩ := bind_ok h
             exact Spec.emit_then ((genRWideTop_spec ds _ _ _ _ _ h2).seq (genRWideTop_spec ns _ _ _ _ _ h3))
-              (fun G _ _ => .wide)
+              (fun G hb h => .wide hb h.1 h.2)
     | .nonce b e, k, L, g0, s, g1, h => by
       simp only [genR] at h
       obtain ⟨es, g2, h1, h2⟩ := bind_ok h
@@ -509,7 +524,7 @@ mutual
         exact Spec.emit_then ((genR_spec a _ _ _ _ _ h2).seq (genR_spec str _ _ _ _ _ h3))
           (fun G hb h => .suffixGen hb (.cons (.cons .nil h.1) h.2))
   theorem genRWideTop_spec : ∀ (es : List Expr) (k : Nat) (L : Option Loop) (g0 : Graph) (s : Nat) (g1 : Graph),
-      genRWideTop cfg es k L g0 = .ok (s, g1) → Spec (fun _ => True) g0 g1
+      genRWideTop cfg es k L g0 = .ok (s, g1) → Spec (fun G => ShapeRWideTop G cfg es s k L) g0 g1
     | [], k, L, g0, s, g1, h => by
       simp only [genRWideTop] at h
       exact (throw_ok h).elim
@@ -517,7 +532,7 @@ mutual
       simp only [genRWideTop] at h
       obtain ⟨b, g2, h1, h2⟩ := bind_ok h
       cases opBlock_ok h2
-      exact ((genR_spec e0 _ _ _ _ _ h1).seq (Spec.emit _ _)).mono (fun _ _ => trivial)
+      exact ((genR_spec e0 _ _ _ _ _ h1).seq (Spec.emit _ _)).mono (fun G h => .one h.2 h.1)
     | e0 :: e1 :: rest, k, L, g0, s, g1, h => by
       simp only [genRWideTop] at h
       obtain ⟨r, g2, h1, h⟩ := bind_ok h
@@ -525,20 +540,20 @@ mutual
       cases opBlock_ok h2
       obtain ⟨b1, g4, h3, h4⟩ := bind_ok h
       exact ((((genRWideRest_spec rest _ _ _ _ _ h1).seq (Spec.emit _ _)).seq (genR_spec e1 _ _ _ _ _ h3)).seq
-        (genR_spec e0 _ _ _ _ _ h4)).mono (fun _ _ => trivial)
+        (genR_spec e0 _ _ _ _ _ h4)).mono (fun G h => .many h.1.1.1 h.1.1.2 h.1.2 h.2)
   theorem genRWideRest_spec : ∀ (es : List Expr) (k : Nat) (L : Option Loop) (g0 : Graph) (s : Nat) (g1 : Graph),
-      genRWideRest cfg es k L g0 = .ok (s, g1) → Spec (fun _ => True) g0 g1
+      genRWideRest cfg es k L g0 = .ok (s, g1) → Spec (fun G => ShapeRWideRest G cfg es s k L) g0 g1
     | [], k, L, g0, s, g1, h => by
       simp only [genRWideRest] at h
       cases pure_ok h
-      exact Spec.refl _
+      exact (Spec.refl _).mono (fun G _ => .nil)
     | e :: rest, k, L, g0, s, g1, h => by
       simp only [genRWideRest] at h
       obtain ⟨k', g2, h1, h⟩ := bind_ok h
       obtain ⟨sb, g3, h2, h3⟩ := bind_ok h
       cases opBlock_ok h2
       exact (((genRWideRest_spec rest _ _ _ _ _ h1).seq (Spec.emit _ _)).seq (genR_spec e _ _ _ _ _ h3)).mono
-        (fun _ _ => trivial)
+        (fun G h => .cons h.1.1 h.1.2 h.2)
   theorem genRArgs_spec : ∀ (es : List Expr) (k : Nat) (L : Option Loop) (g0 : Graph) (s : Nat) (g1 : Graph),
       genRArgs cfg es k L g0 = .ok (s, g1) → Spec (fun G => ShapeRArgs G cfg es s k L) g0 g1
     | [], k, L, g0, s, g1, h => by
